@@ -51,6 +51,9 @@ pub struct Ctx {
     pub max_cases: u64,
     /// Admit one case in `stride` (1 = all).
     pub stride: u64,
+    /// Stop admitting cases after this many seconds (0 = unlimited). Bounds the workload of the
+    /// slow legs; never part of a verdict.
+    pub time_budget_s: u64,
 }
 
 pub enum Verdict {
@@ -71,6 +74,7 @@ impl Verdict {
 pub struct Shared {
     pub admitted: AtomicU64,
     pub stop: AtomicBool,
+    pub started: Instant,
 }
 
 /// Worker-local accumulator.
@@ -87,6 +91,9 @@ pub struct Sink<'a> {
     pub violations: BTreeMap<String, (u64, String, Value)>,
     pub samples: Vec<Value>,
     next_sample_at: u64,
+    /// per-block admission budget (slow legs spread their case budget over all blocks)
+    block_budget: u64,
+    block_admitted: u64,
     pub notes: BTreeMap<String, (u64, String)>,
 }
 
@@ -104,13 +111,19 @@ impl<'a> Sink<'a> {
             violations: BTreeMap::new(),
             samples: Vec::new(),
             next_sample_at: 1,
+            block_budget: u64::MAX,
+            block_admitted: 0,
             notes: BTreeMap::new(),
         }
     }
 
     /// Called before executing a generated case; false = skip it (subsampling / budget).
     pub fn admit(&mut self) -> bool {
-        if self.shared.stop.load(Ordering::Relaxed) {
+        if self.shared.stop.load(Ordering::Relaxed) || self.block_admitted >= self.block_budget {
+            return false;
+        }
+        if self.ctx.time_budget_s > 0 && self.shared.started.elapsed().as_secs() >= self.ctx.time_budget_s {
+            self.shared.stop.store(true, Ordering::Relaxed);
             return false;
         }
         self.seen += 1;
@@ -124,7 +137,17 @@ impl<'a> Sink<'a> {
                 return false;
             }
         }
+        self.block_admitted += 1;
         true
+    }
+
+    pub fn globally_stopped(&self) -> bool {
+        self.shared.stop.load(Ordering::Relaxed)
+    }
+
+    pub fn begin_block(&mut self, budget: u64) {
+        self.block_budget = budget;
+        self.block_admitted = 0;
     }
 
     /// Fast path for huge repetition-free enumerations: an executed case that held.
@@ -145,7 +168,7 @@ impl<'a> Sink<'a> {
     }
 
     pub fn stopped(&self) -> bool {
-        self.shared.stop.load(Ordering::Relaxed)
+        self.shared.stop.load(Ordering::Relaxed) || self.block_admitted >= self.block_budget
     }
 
     pub fn count(&mut self, key: &str) {
@@ -267,6 +290,7 @@ pub fn run(prop: &dyn Prop, ctx: &Ctx, replay: Option<&Value>) -> Value {
     let shared = Shared {
         admitted: AtomicU64::new(0),
         stop: AtomicBool::new(false),
+        started: Instant::now(),
     };
     let mut total = Sink::new(ctx, &shared);
     let mut blocks_run = 0usize;
@@ -274,6 +298,8 @@ pub fn run(prop: &dyn Prop, ctx: &Ctx, replay: Option<&Value>) -> Value {
         prop.replay(case, &mut total);
     } else {
         let n = prop.n_blocks(ctx);
+        let in_shard = (n + ctx.shard.1 - 1 - ctx.shard.0.min(n)) / ctx.shard.1;
+        let per_block = if ctx.max_cases > 0 && in_shard > 0 { (ctx.max_cases + in_shard as u64 - 1) / in_shard as u64 } else { u64::MAX };
         let next = AtomicUsize::new(0);
         let done = AtomicUsize::new(0);
         let sinks: Vec<Sink> = std::thread::scope(|s| {
@@ -283,12 +309,13 @@ pub fn run(prop: &dyn Prop, ctx: &Ctx, replay: Option<&Value>) -> Value {
                         let mut sink = Sink::new(ctx, &shared);
                         loop {
                             let b = next.fetch_add(1, Ordering::Relaxed);
-                            if b >= n || sink.stopped() {
+                            if b >= n || sink.globally_stopped() {
                                 break;
                             }
                             if b % ctx.shard.1 != ctx.shard.0 {
                                 continue;
                             }
+                            sink.begin_block(per_block);
                             prop.run_block(b, &mut sink);
                             done.fetch_add(1, Ordering::Relaxed);
                         }
@@ -308,7 +335,7 @@ pub fn run(prop: &dyn Prop, ctx: &Ctx, replay: Option<&Value>) -> Value {
     }
 
     let mut floors_missed = Vec::new();
-    if replay.is_none() && ctx.leg == Leg::Native && ctx.max_cases == 0 && ctx.stride == 1 {
+    if replay.is_none() && ctx.leg == Leg::Native && ctx.max_cases == 0 && ctx.stride == 1 && ctx.time_budget_s == 0 {
         for (k, min) in prop.floors(ctx) {
             let got = total.counters.get(k).copied().unwrap_or(0);
             if got < min {
@@ -345,7 +372,7 @@ pub fn run(prop: &dyn Prop, ctx: &Ctx, replay: Option<&Value>) -> Value {
         "evaluations": total.evaluations,
         "distinct_nontrivial": total.nontrivial.len() as u64 + total.nt_enumerated,
         "rule": prop.rule(ctx),
-        "exhaustive": prop.exhaustive(ctx) && ctx.max_cases == 0 && ctx.stride == 1 && ctx.shard.1 == 1,
+        "exhaustive": prop.exhaustive(ctx) && ctx.max_cases == 0 && ctx.stride == 1 && ctx.shard.1 == 1 && ctx.time_budget_s == 0,
         "blocks_total": if replay.is_some() { 0 } else { prop.n_blocks(ctx) },
         "blocks_run": blocks_run,
         "counters": total.counters,
